@@ -25,6 +25,9 @@ def _site(kind):
 def _terms(name, L, seed):
     """-> (site kind, terms); term = ('onsite', coefs[L], op) | ('coupling', coefs[L-dx], op_i, op_j, dx, plus_hc)
     | ('exp', coef, lambda, op_i, op_j, plus_hc) | ('multi', coef, [(op, dx), ...], plus_hc)."""
+    if name.endswith('_neg'):  # same model minus 4 per site: all energies negative (needed for `orthogonal_to`)
+        kind, t = _terms(name[:-4], L, seed)
+        return kind, t + [('onsite', np.full(L, -4.0), 'Id')]
     r = _rng(seed, name, L)
     u = lambda n, lo=0.5, hi=1.5: r.uniform(lo, hi, n)  # noqa: E731
     if name == 'xxz':  # NN, site-dependent couplings, operators with non-zero charge
@@ -165,3 +168,63 @@ def dense_state(psi):
     if psi.form[L - 1][1] != 1.0:
         v = v * psi._S[L][None, :]**(1.0 - psi.form[L - 1][1])
     return v.reshape(-1) * psi.norm
+
+
+# ---------------------------------------------------------------- infinite chains with closed-form energy density
+
+INF_TERMS = {  # uniform nearest-neighbour chains: (site kinds by conserve, terms as in _terms but with scalar coefficients)
+    'tfi': [('coupling', -1.0, 'Sigmax', 'Sigmax', 1, False), ('onsite', -1.5, 'Sigmaz')],  # J=1, g=1.5 (gapped)
+    'xxz': [('coupling', 0.5, 'Sp', 'Sm', 1, True), ('coupling', 2.0, 'Sz', 'Sz', 1, False)],  # Delta=2 (gapped, Neel)
+}
+INF_SITES = {'tfi': ['spin_par', 'spin_none'], 'xxz': ['spin_Sz', 'spin_none']}
+
+
+def exact_density(name):
+    """Closed forms: TFI -(1/pi) int_0^pi sqrt(1+g^2-2g cos k) dk; XXZ (Delta=cosh(lam)>1, Bethe ansatz)
+    Delta/4 - sinh(lam) [1/2 + 2 sum_n 1/(1+exp(2 n lam))]."""
+    if name == 'tfi':
+        k = (np.arange(20000) + 0.5) * np.pi / 20000  # midpoint rule, smooth periodic integrand
+        return float(-np.mean(np.sqrt(1 + 1.5**2 - 2 * 1.5 * np.cos(k))))
+    lam = np.arccosh(2.0)
+    n = np.arange(1, 200)
+    return float(2.0 / 4 - np.sinh(lam) * (0.5 + 2 * np.sum(1.0 / (1.0 + np.exp(2 * n * lam)))))
+
+
+def infinite_model(name, L, ephc, kind):
+    from tenpy.models.lattice import Chain
+    from tenpy.models.model import CouplingModel, MPOModel
+    lat = Chain(L, _site(kind), bc='periodic', bc_MPS='infinite')
+
+    class Zoo(CouplingModel, MPOModel):
+        def __init__(self):
+            CouplingModel.__init__(self, lat, explicit_plus_hc=ephc)
+            for t in INF_TERMS[name]:
+                if t[0] == 'onsite':
+                    self.add_onsite(t[1], 0, t[2])
+                else:
+                    self.add_coupling(t[1], 0, t[2], 0, t[3], t[4], plus_hc=t[5])
+            MPOModel.__init__(self, lat, self.calc_H_MPO())
+    return Zoo()
+
+
+def infinite_energy_density(name, psi):
+    """Own evaluation for a canonical infinite MPS: mean over bonds of <theta| h_bond |theta>, theta = S B B."""
+    site = psi.sites[0]
+    d = site.dim
+    op = lambda n: site.get_op(n).to_ndarray()  # noqa: E731
+    h = np.zeros((d * d, d * d), complex)
+    for t in INF_TERMS[name]:
+        if t[0] == 'onsite':
+            h += 0.5 * t[1] * (np.kron(op(t[2]), np.eye(d)) + np.kron(np.eye(d), op(t[2])))
+        else:
+            m = t[1] * np.kron(op(t[2]), op(t[3]))
+            h += m + (m.conj().T if t[5] else 0)
+    es = []
+    for i in range(psi.L):
+        S = psi.get_SL(i)
+        B0 = psi.get_B(i, 'B').transpose(['vL', 'p', 'vR']).to_ndarray()
+        B1 = psi.get_B(i + 1, 'B').transpose(['vL', 'p', 'vR']).to_ndarray()
+        th = np.tensordot(S[:, None, None] * B0, B1, axes=(2, 0))  # vL p0 p1 vR
+        th = th.transpose(1, 2, 0, 3).reshape(d * d, -1)
+        es.append(np.real(np.einsum('ax,ab,bx->', th.conj(), h, th)) / np.real(np.vdot(th, th)))
+    return float(np.mean(es))
